@@ -238,6 +238,8 @@ def replay(prop, path):
         if c.key() == cfgk:
             cfg = c
     if cfg is None:
+        cfg = vlib.Config.from_key(cfgk)
+    if cfg is None or cfg.key() != cfgk:
         print('unknown configuration', cfgk)
         return 2
     vlib.lean_stage([], [], need_driver=True)
